@@ -183,7 +183,7 @@ class Interp(InterpBase):
         if fi.fq in self.ex.stop:
             self.effects.append(Effect("call", None, fi.fq, tuple(args), dict(kwargs), self.in_loop > 0, dict(self.path)))
             return self.new_sym(f"result of {fi.name}")
-        if fi.fq in self.ex.opaque and all(is_immutable(a) for a in [*args, *kwargs.values()]):
+        if (fi.fq in self.ex.opaque or fi.fq in self.ex.force_opaque) and all(is_immutable(a) for a in [*args, *kwargs.values()]):
             return App(f"call:{fi.fq}", tuple(_h(a) for a in args) + tuple((k, _h(v)) for k, v in sorted(kwargs.items())))
         can_fall_back = all(is_immutable(a) for a in [*args, *kwargs.values()]) and not (fi.is_method and not fi.is_staticmethod)
         snap = (len(self.decisions), dict(self.path), len(self.trace), len(self.effects), self.fresh, len(self.body_sites), self.in_loop) if can_fall_back else None
@@ -206,6 +206,7 @@ class Interp(InterpBase):
             self.fresh = fr
             self.in_loop = il
             self.fallbacks.add(f"{fi.fq} ({u.msg})")
+            self.ex.force_opaque.add(fi.fq)  # later paths must not interpret it either: the enumeration of decisions stays consistent
             return App(f"call:{fi.fq}", tuple(_h(a) for a in args) + tuple((k, _h(v)) for k, v in sorted(kwargs.items())))
         finally:
             self.depth -= 1
